@@ -164,6 +164,12 @@ impl Session {
                     return Err(Error::SessionNotEstablished);
                 }
             };
+            // The record the signature is checked against must be the record of the node the
+            // handshake claims to come from, otherwise any node could authenticate as
+            // `remote_id` with its own key and record.
+            if &enr.node_id() != remote_id {
+                return Err(Error::InvalidChallengeSignature(Box::new(challenge)));
+            }
             enr.public_key()
         };
 
